@@ -233,8 +233,12 @@ func (c *completion) complete(args []string) []Completion {
 					// it consumes all subsequent args).
 					s.positional = s.positional[1:]
 				}
-			} else if cmd, ok := s.lookup.commands[arg]; ok {
+			} else if cmd, ok := s.lookup.commands[arg]; ok && len(s.retargs) == 0 {
 				cmd.fillParseState(s)
+			} else {
+				// Like the parser: once a plain argument has been seen,
+				// further words are arguments too, not command names
+				s.retargs = append(s.retargs, arg)
 			}
 
 			opt = nil
